@@ -8,6 +8,7 @@ import (
 	"os"
 	"reflect"
 	"strings"
+	"text/scanner"
 
 	"github.com/alecthomas/participle/v2"
 	"github.com/alecthomas/participle/v2/lexer"
@@ -60,6 +61,7 @@ func apiRun(args []string) error {
 	defer w.Flush()
 	if variant == "core" {
 		parseableRoot(w)
+		textScannerEntryPoints(w)
 	}
 	for gi := range gs {
 		g := &gs[gi]
@@ -201,6 +203,62 @@ func parseableRoot(w *bufio.Writer) {
 		words = append(words, fmt.Sprintf("%s@cursor=%d", v.Word, int(pl.RawCursor())+1))
 	}
 	fmt.Fprintf(w, "parseable-root\t0\t0\tParseFromLexer+AllowTrailing\t%s\n", strings.Join(words, " "))
+}
+
+type tsGrammar struct {
+	Items []string `@(Ident | Comment | Int | String | "(" | ")" | "+")*`
+}
+
+// textScannerEntryPoints: a parser over NewTextScannerLexer(configure) (comments kept): every entry point must see the
+// configured lexer.
+func textScannerEntryPoints(w *bufio.Writer) {
+	def := lexer.NewTextScannerLexer(func(s *scanner.Scanner) { s.Mode = scanner.GoTokens &^ scanner.SkipComments })
+	p, err := participle.Build[tsGrammar](participle.Lexer(def))
+	if err != nil {
+		fmt.Fprintf(w, "textcfg\t0\t0\tbuild\tbuilderr %v\n", err)
+		return
+	}
+	names := lexer.SymbolsByRune(p.Lexer())
+	for i, s := range []string{"a // c\nb /* x */ 1", "/* only */", "x + (y) // t", "\"s\" // c"} {
+		emit := func(ep, out string) { fmt.Fprintf(w, "textcfg\t0\t%d\t%s\t%s\n", i, ep, out) }
+		render := func(v *tsGrammar, err error) string {
+			if err != nil {
+				return "err " + err.Error()
+			}
+			return "ok " + strings.Join(v.Items, "|")
+		}
+		raw, lerr := p.Lex("fn", strings.NewReader(s))
+		if lerr != nil {
+			emit("Lex", "lexerr "+lerr.Error())
+		} else {
+			emit("Lex", tokensKey(raw, names))
+		}
+		v1, e1 := p.ParseString("fn", s)
+		emit("ParseString", render(v1, e1))
+		v2, e2 := p.ParseBytes("fn", []byte(s))
+		emit("ParseBytes", render(v2, e2))
+		v3, e3 := p.Parse("fn", strings.NewReader(s))
+		emit("Parse", render(v3, e3))
+		var buf bytes.Buffer
+		v4, e4 := p.ParseString("fn", s, participle.Trace(&buf))
+		emit("ParseString+Trace", render(v4, e4))
+		t1, le1 := lexAll(def.Lex("fn", strings.NewReader(s)))
+		key := func(ts []lexer.Token, e error) string {
+			if e != nil {
+				return "lexerr " + e.Error()
+			}
+			return tokensKey(ts, names)
+		}
+		emit("def.Lex", key(t1, le1))
+		if sd, ok := def.(lexer.StringDefinition); ok {
+			t2, le2 := lexAll(sd.LexString("fn", s))
+			emit("def.LexString", key(t2, le2))
+		}
+		if bd, ok := def.(lexer.BytesDefinition); ok {
+			t3, le3 := lexAll(bd.LexBytes("fn", []byte(s)))
+			emit("def.LexBytes", key(t3, le3))
+		}
+	}
 }
 
 func tokIndexOf(raw []lexer.Token, t *lexer.Token) int {
